@@ -104,7 +104,7 @@ def main():
         "setup_cmd": "./setup.sh",
         "hooks": {
             "guard": "cfg(kani)",
-            "enable": "cargo kani sets --cfg kani; each hook is `#[cfg(kani)] #[path = \"/verif/harness/<crate>/<file>.rs\"] mod verif_kani;` appended to a module of /repo (add-only); checks run `cargo kani --manifest-path /repo/Cargo.toml -p <crate>`",
+            "enable": "cargo kani sets --cfg kani; each hook is `#[cfg(kani)] #[path = \"/verif/harness/<crate>/<file>.rs\"] mod verif_kani;` appended to a module of /repo (add-only), plus `#[cfg(kani)] pub(crate) use ... as verif_kani_*` re-exports between sibling modules and, in the text line scanners (fasta, fastq, bed, sam, vcf), the memchr shim: the existing `use memchr::...;` line gets a `#[cfg(not(kani))]` attribute line in front of it and a `#[cfg(kani)] use ...verif_kani::memchr_model as memchr;` twin (lines added only; with the guard off the import is unchanged); checks run `cargo kani --manifest-path /repo/Cargo.toml -p <crate>`",
             "baseline_off_cmd": "cd /repo && cargo nextest run --workspace --no-fail-fast --tool-config-file pb:/w/lib/nextest.toml --profile pb --test-threads 8 --offline",
             "source_commits": hook_shas,
             "add_only": True,
